@@ -101,8 +101,17 @@ class ParseUserData:
 
     def getBuiltinFormatJSON(self) -> str:
         if self.subType == UserDataFormat.json.value:
-            string = bytes.decode(self.data).strip().rstrip('\x00')
-            return string
+            try:
+                string = bytes.decode(self.data).strip().rstrip('\x00')
+                # Only hand on text that can be loaded and printed again
+                # as JSON (the PEL adds two levels of nesting around it).
+                json.dumps([[json.loads(string)]], indent=4, allow_nan=False)
+                return string
+            except (ValueError, RecursionError):
+                # Not UTF-8, not JSON, or numbers/nesting beyond what can
+                # be represented: show the bytes rather than lose the PEL.
+                mv = memoryview(self.data)
+                return json.dumps(hexdump(mv))
         elif self.subType == UserDataFormat.cbor.value:
             # TODO, support CBOR (binary JSON)
             # pad = get_value(self.stream.data, self.dataLength - 4, 4)
@@ -117,7 +126,9 @@ class ParseUserData:
         elif self.subType == UserDataFormat.text.value:
             lines = []
             line = ''
-            for ch in bytes.decode(self.data).strip().rstrip('\x00'):
+            # Bytes that are not valid UTF-8 are shown as '.' like any other
+            # non-printable character.
+            for ch in bytes.decode(self.data, errors='replace').strip().rstrip('\x00'):
                 if ch != '\n':
                     if ord(ch) < ord(' ') or ord(ch) > ord('~'):
                         ch = '.'
